@@ -36,7 +36,8 @@ class TrackProgram:
             if place == "main":
                 q = name("a")
                 st, out = prep(q, kind)
-                body += ["@tracked qubit %s;" % q] + st
+                # an ordinary assignment to the variable (here: of itself) leaves it tracked
+                body += ["@tracked qubit %s;" % q] + (["%s = %s;" % (q, q)] if r.random() < 0.4 else []) + st
                 self.expected["qubit " + q] = {"exits": 1, "outcome": out}
             elif place == "block":
                 q = name("b")
@@ -67,7 +68,7 @@ class TrackProgram:
                     flips = [r.random() < 0.5 for _ in range(size)]
                     st = ["x(%s[%d]);" % (q, e) for e, fl in enumerate(flips) if fl] + ["measure %s;" % q]
                     out = "".join("1" if fl else "0" for fl in flips)
-                body += ["@tracked qubit[%d] %s;" % (size, q)] + st
+                body += ["@tracked qubit[%d] %s;" % (size, q)] + (["%s = %s;" % (q, q)] if r.random() < 0.4 else []) + st
                 self.expected["qubit[] " + q] = {"exits": 1, "outcome": out}
             elif place == "field":
                 c, fq, cnt = name("H"), name("hq"), r.randrange(1, 4)
